@@ -27,7 +27,7 @@ ASSUMPTIONS = [
 OBLIGATIONS = {"poly:star": 20, "poly:selfintersecting": 20, "poly:lattice": 20,
                "poly:repeated-vertex": 5, "pt:inside": 500, "pt:outside-in-bbox": 300,
                "pt:outside-bbox": 100, "pt:level-with-vertex": 200, "meta": 100,
-               "cells_inside_polygon": 10, "inside-buffer": 50}
+               "cells_inside_polygon": 10, "inside-buffer": 50, "options": 50}
 
 
 def P():
@@ -153,6 +153,15 @@ def run_case(ctx, case):
     ctx.check("inside.values-0-1", bool(np.all((got == 0) | (got == 1))),
               "points_inside_polygon|values", case, None)
 
+    # ---- options: a smaller tolerance and the progress log must not change answers
+    for kw in ({"atol": 0.0}, {"atol": 1e-12}, {"nprint": 1}, {"nprint": 7}):
+        ctx.api("points_inside_polygon(opts)")
+        ctx.tag("options")
+        g3 = np.asarray(gu.points_inside_polygon(pts.copy(), poly.copy(), **kw))
+        diff = np.where(judged & (g3 != got))[0]
+        ctx.check("inside.options", len(diff) == 0,
+                  "points_inside_polygon|option-changes-answer", case,
+                  lambda: {"options": kw, "point": pts[diff[0]].tolist()})
     # ---- caller-supplied answer vector (documented output): whatever it holds
     # before the call, the answer must be the same as with a fresh vector
     for fillv in (1, 0, 7):
